@@ -98,7 +98,7 @@ def instStep (st : St) (two : Bool) (args : List String) : St × String :=
     if (AMap.get st.known w).isNone then (st, "bad-op") else
     let n := pendMention l (addrsOf st w)
     (st, if n = 0 then "-" else s!"t/m:{n}")
-  | _ => Imp.instStep st two args
+  | _ => Imp.instStepN st two args
 
 def step (st : St) (args : List String) : St × String := Imp.route instStep st args
 
